@@ -55,3 +55,17 @@ PROPS["C16"] = {
     ],
     "floor_q": 20, "floor_t": 500,
 }
+
+PROPS["C08"] = {
+    "level": "exploration",
+    "technique": "rapid-generated (topology, candidate set, count, priority, flags) call sequences against the allocator contract (validity predicate on result/set bookkeeping) plus a determinism differential (fresh allocator and repeated call)",
+    "rule": "topologies from the C16 generator (incl. hybrid, clusters, cpufreq/EPP priorities) are discovered through the real sysfs code; the candidate "
+            "set is all online CPUs, a random subset, online minus holes, or whole NUMA nodes; 1-6 allocate/release calls on the evolving set with count "
+            "0..|set|+2, 4 priorities, default or any of the 16 flag combinations; a call is non-trivial when 1 < n < |set|-1 on a set that is not a "
+            "union of whole packages; distinct = distinct (machine, set, call) triple",
+    "assumptions": [FIXTURE, "ReleaseCpus(from, n) is read as its two call sites use it: *from ends up holding the n released CPUs, the kept ones are returned"],
+    "units": [
+        {"name": "calls", "pkg": "./pkg/cpuallocator", "run": "^TestVerifC08$", "q": 3000, "t": 480000},
+    ],
+    "floor_q": 100, "floor_t": 5000,
+}
